@@ -9,7 +9,9 @@ An exception or a logged warning from simplify() counts as reported failure (sta
 
 Model families: vk/simpfam.models() (base models and alias chains) and vk/simpfam.models_ext() (linked
 non-eliminable alias classes and alias cycles, every orientation of the pattern-matched equations, badly
-scaled affine systems); see cov["bounds"].
+scaled affine systems) and vk/simpfam.models_ext2() (alias cycles in every equation order, if-equations whose
+branches are pattern-matched shapes);
+see cov["bounds"].
 """
 import logging
 import sys
@@ -150,6 +152,8 @@ def check_pair(col, mid, text, opts):
         elif r == "unknown":
             col.note_inconclusive(f"{case}:{which}:completeness unknown")
     col.bump("pairs")
+    if mid.startswith("ifeq:"):  # how far the passes got on this class: number of unknowns simplify() removed
+        col.bump("ifeq_pairs_with_%d_unknowns_removed" % (len(unknown_names(orig)) - len(unknown_names(simp))))
 
 
 def report(col, case, text, opts, which, kind, m, orig, simp, ro, rs, what):
@@ -217,7 +221,7 @@ def main():
             osets = [o for o in osets if len(o) <= 2 or "reduce_affine_expression" in o or len(o) >= 6]
         items += [(mid, text, o) for o in osets]
     # extended classes: linked non-eliminable alias classes / alias cycles, equation orientations, badly scaled affine systems
-    # + if-equations whose branches are pattern-matched shapes (same / different / non-matching variables per branch)
+    # + alias cycles in every equation order; if-equations whose branches are pattern-matched shapes
     ext = simpfam.models_ext(args.tier) + simpfam.models_ext2(args.tier)
     for mid, text, osets in ext:
         items += [(mid, text, o) for o in osets]
@@ -252,6 +256,21 @@ def main():
                      "scale = affine systems with one coefficient of magnitude 2^-30 or -2.5e-9 (thorough also 2^-27, 2^-26, 2^-40, 2^30, 1e-12) written as literal / parameter / "
                      "constant / parameter*constant product in front of an algebraic variable / state / der-state / input, under reduce_affine_expression with each combination of "
                      "replace_parameter_values and replace_constant_values, and with alias+constant elimination (thorough 11 option sets); no initial equations in this class. "
+                     "Second-round extended classes (vk/simpfam.models_ext2): cycle = alias cycles among algebraic variables only, shapes ring (a-b-d2-a), star (a, d2 tied to b, then to "
+                     "each other), sum (closing equation a +- d2 = 0), zero (all in residual form), ring of 4; every sign pattern (odd number of minus signs = contradictory, "
+                     "unique solution 0; even = redundant) x every equation order for the 3-cycles (quick: all 6 orders for contradictory, 2 for redundant; ring of 4: 2 orders, "
+                     "contradictory only; thorough: all 24 orders for contradictory, 5 for redundant) under detect_aliases (written order also: all six, + expand_mx; thorough more); "
+                     "ifeq = one if-equation whose branches are pattern-matched shapes, 26 shapes: both branches assign the same "
+                     "eliminable variable / two different eliminable variables (either first) / an eliminable and a non-matching variable (either first) / `g = 0` branch, "
+                     "elseif chains of 3 (same variable, odd one in the middle, odd one last), 2 equations per branch with rows aligned / crossed (scalars and elements of a vector), "
+                     "nested if-equations (same / different variables), if-expression as assigned value, alias-like branches (g = +-x, g = +-h, same alias twice, different "
+                     "variables) and constant-assignment-like branches; x condition in {Boolean parameter true / false, not bp, u > p, x < 1 (elseif/nested condition bp true / false), "
+                     "bp and u > p, u <= p} (quick: bp true, bp false, u > p; + x < 1 for the 4 main shapes) x branch orientations (6 combinations of V=E, E=V, V-E=0, 0=E-V, "
+                     "V+N=0, N=-V, 0=V+N, 0=V-E, E-V=0, -V=N; quick: 3 for the 4 main shapes under bp true and u > p, else V=E only); option sets: eliminable_variable_expression "
+                     "^(g|k|gv\\[[12]\\])$ + expand_mx + expand_vectors alone / + detect_aliases / without expand_vectors, and for the V=E form also + constant elimination, "
+                     "all six, + replace_parameter_values, (alias-like / constant-like shapes) detect_aliases resp. eliminate_constant_assignments without the regex "
+                     "(thorough: + replace_parameter_expressions, factor_and_simplify, iterative, all six without expand_vectors, resolve_parameter_values, expansion only); "
+                     "models stay piecewise affine so that z3 decides both directions. "
                      "unknowns unbounded reals")
     rep.assumptions += ["parameters/constants fixed at their declared values; unspecified (NaN) parameters free",
                         "real arithmetic; divisors non-zero", "a logged warning or exception from simplify() is 'reported failure'"]
